@@ -255,7 +255,7 @@ def write_ndjson(path, rows):
 def load_known(prop):
     """known_findings.txt lines:  finding: property=<id> key=<key> <text>   |   fixed: property=<id> <commit> <text>"""
     out = {}
-    if not os.path.exists(KNOWN):
+    if not os.path.exists(KNOWN) or os.environ.get("VERIF_NO_KNOWN"):      # development aid: show the listed findings as violations again
         return out
     for line in open(KNOWN):
         line = line.strip()
